@@ -59,7 +59,8 @@ C13Predict(e) ==
            \cup (IF e.model_after # e.model THEN {"C13.model_modified"} ELSE {})
 
 \* C14 (single-event part) - no rate or predict call changes any attribute of the model
-C14ModelRO(e) == IF e.model_after # e.model THEN {"C14.model_modified"} ELSE {}
+C14ModelRO(e) == (IF e.model_after # e.model THEN {"C14.model_modified"} ELSE {})
+                 \cup (IF e.model # e.model0 THEN {"C14.model_differs_from_construction"} ELSE {})
 \* ... and predictions do not touch the ratings
 C14PredictPure(e) == IF e.after # e.teams THEN {"C14.predict_modified_rating"} ELSE {}
 
@@ -218,4 +219,50 @@ C08Predict(e) ==
                     [] e.op = "draw" -> v.t = "float" /\ RIsReal(v.v)
                     [] e.op = "rank" -> IsRankList(v, N(e))
        IN  IF fin THEN {} ELSE {"C08.not_finite"}
+---------------------------------------------------------------------------
+\* C17 - the exported Gaussian correction functions: e = [name, x, t, out]
+RelOrTiny(got, want, rel) == RWithin(got, want, RAbs(want) ** rel) \/ (RLt(RAbs(got), TinyNorm) /\ RLt(RAbs(want), TinyNorm))
+
+C17(e) ==
+  LET name == e.name
+      fin  == e.out.kind = "ok" /\ IsNum(e.out.value) /\ RIsReal(e.out.value.v)
+      y    == e.out.value.v
+      x    == e.x.v
+      t    == e.t.v
+      big  == RLt("500", RAbs(x))                                   \* exact forms are evaluated for |x| <= 500
+      slack == "1E-13" // t
+  IN  IF ~fin THEN {"C17.not_finite:" \o name}
+      ELSE
+      CASE name = "phi_major" ->
+             IF big THEN {} ELSE IF RelOrTiny(y, RPhi(x), "1E-12") THEN {} ELSE {"C17.cdf_accuracy"}
+        [] name = "v" ->
+             (IF RNegative(y) THEN {"C17.v_negative"} ELSE {})
+             \cup (IF big THEN {}
+                   ELSE LET den == RPhi(x -- t)
+                        IN  IF Near(den, Eps) THEN {}
+                            ELSE IF RLt(den, Eps) THEN (IF RWithin(y, VExact(x, t), "0.02" ** VExact(x, t)) THEN {} ELSE {"C17.v_asymptotic_off"})
+                            ELSE (IF RelOrTiny(y, VExact(x, t), "1E-6") THEN {} ELSE {"C17.v_accuracy"}))
+        [] name = "w" ->
+             (IF RLt(y, RNeg(slack)) \/ RLt("1" ++ slack, y) THEN {"C17.w_range"} ELSE {})
+             \cup (IF big THEN {}
+                   ELSE LET den == RPhi(x -- t)
+                        IN  IF Near(den, Eps) THEN {}
+                            ELSE IF RLt(den, Eps) THEN (IF RWithin(y, WExact(x, t), "0.02" ** WExact(x, t)) THEN {} ELSE {"C17.w_asymptotic_off"})
+                            ELSE (IF RelOrTiny(y, WExact(x, t), "1E-6") THEN {} ELSE {"C17.w_accuracy"}))
+        [] name = "vt" ->
+             IF big THEN {} ELSE IF RWithin(y, VtExact(x, t), R2(t) ++ "1E-15") THEN {} ELSE {"C17.vt_off"}
+        [] name = "wt" ->
+             (IF RLt(y, RNeg(slack)) \/ RLt("1" ++ slack, y) THEN {"C17.wt_range"} ELSE {})
+             \cup (IF big THEN {} ELSE IF RWithin(y, WtExact(x, t), ("20" ** t) ++ slack) THEN {} ELSE {"C17.wt_off"})
+        [] OTHER -> {}
+
+C17Classes(e) ==
+  LET x == e.x.v  t == e.t.v
+  IN  {"kernel=" \o e.name}
+      \cup (IF RLt("500", RAbs(x)) THEN {"huge_x"}
+            ELSE IF e.name \in {"v", "w"} THEN
+                   (IF Near(RPhi(x -- t), Eps) THEN {"guardband"} ELSE IF RLt(RPhi(x -- t), Eps) THEN {"asymptotic"} ELSE {"computed"})
+            ELSE IF e.name = "vt" THEN (IF RLt(Band(x, t), BandGuard) THEN {"asymptotic"} ELSE {"computed"})
+            ELSE IF e.name = "wt" THEN (IF RLt(Band(x, t), Eps) THEN {"asymptotic"} ELSE {"computed"})
+            ELSE {})
 =============================================================================
